@@ -124,6 +124,13 @@ def run(ctx):
     ctx.level = "model_checking"
     build_harness()
     _tlc_design(ctx)
+    # unbounded: the two state invariants are inductive (TLAPS, spec/GateProof.tla) for any set of waiters, any counts
+    # and any number of steps - what TLC checks within 3 waiters / counts 0..3 holds without those bounds
+    ok, nobl, out = tlc.tlapm("GateProof", timeout=600)
+    if not ok:
+        raise Inconclusive("TLAPS could not prove spec/GateProof.tla: " + out[-800:])
+    log("E1 TLAPS GateProof: all %d obligations proved (ArrivedLeCount, NoLostWakeup inductive, unbounded)" % nobl)
+    ctx.coverage["tlaps_obligations_proved"] = nobl
     cfg = "MC_GateQ_walk2.cfg" if ctx.quick else "MC_GateQ_walk3.cfg"
     g, paths, wf, cov, total = _walk(ctx, cfg, max_len=300)
     rep = _replay_file(wf, os.path.join(os.path.dirname(wf), "report.json"), maxdiv=8)
